@@ -360,7 +360,7 @@ def get_cell_outside(self, x, y, z, old):
 contract('Environments.DiscreteWorld.get_cell',
          params={'self': 'ref:DiscreteWorld', 'x': 'int', 'y': 'int', 'z': 'int'}, returns='ref:Row',
          requires=[Grid_rep],
-         ensures={'C09': [get_cell_post]},
+         ensures={'C09': [get_cell_post], 'C11': [get_cell_post]},
          raises={'IndexError': dict(when=get_cell_outside)},
          modifies=['new:obj:Row'], native=False, props=['C09'])
 
@@ -585,3 +585,113 @@ contract('Environments.DiscreteWorld.get_neighbours',
          ensures={'C10': [generic_moore_post, generic_neumann_post]},
          raises={'KeyError': dict(when=mode_other)},
          modifies=['new:list[tuple[int,int,int]]'], view='tuple', native=False, props=['C10'])
+from pyvc.specs import as_list, is_ndarray, is_list   # noqa: E402
+
+
+# ------------------------------------------------------------------------------------------------ C11 cell components
+def cell_name_ok(self, name, generator):
+    """`pos` is the world's own position table, not a cell component."""
+    return name != 'pos'
+
+
+def seq_fits(self, name, generator):
+    """A supplied sequence / array has one element per cell."""
+    return implies(is_ndarray(generator) or is_list(generator), len(as_list(generator)) == len(self.cells.pos))
+
+
+def cellcomp_added(self, name, generator, old):
+    """The new column is a fresh list with one value per cell; every other column is the same object with the same
+    contents; the set of cells (position table) is untouched."""
+    cols = self.cells.cols
+    cols0 = old.self.cells.cols
+    return (name in cols and is_fresh(cols[name], old) and len(cols[name]) == len(self.cells.pos)
+            and all(k in cols and (k == name or (same_obj(cols[k], cols0[k]) and same_elems(cols[k], cols0[k])))
+                    for k in cols0)
+            and all(k in cols0 or k == name for k in cols)
+            and same_elems(self.cells.pos, old.self.cells.pos))
+
+
+def cellcomp_values_seq(self, name, generator, old):
+    """Sequence / array sources: cell id i holds element i."""
+    return implies(is_ndarray(generator) or is_list(generator), same_elems(self.cells.cols[name], as_list(generator)))
+
+
+def cellcomp_values_callable(self, name, generator, old):
+    """Callable sources: cell id i holds generator(coordinates of cell i, cells)."""
+    pos = self.cells.pos
+    col = self.cells.cols[name]
+    return implies(not is_ndarray(generator) and not is_list(generator),
+                   all(same(col[i], generator(pos[i], self.cells)) for i in range(len(pos))))
+
+
+contract('Environments.DiscreteWorld.add_cell_component',
+         params={'self': 'ref:DiscreteWorld', 'name': 'str', 'generator': 'any'},
+         requires=[cell_name_ok, seq_fits],
+         ensures={'C11': [cellcomp_added, cellcomp_values_seq, cellcomp_values_callable]},
+         modifies=['self.cells.cols', 'new:list[any]'],
+         native=False, props=['C11'])
+
+
+def cellcomp_removed(self, name, old):
+    cols = self.cells.cols
+    cols0 = old.self.cells.cols
+    return (dict_removed(cols, cols0, name)
+            and all(k == name or same_elems(cols[k], cols0[k]) for k in cols0)
+            and same_elems(self.cells.pos, old.self.cells.pos))
+
+
+def cellcomp_unknown(self, name, old):
+    return name not in old.self.cells.cols
+
+
+def remove_name_ok(self, name):
+    return name != 'pos'
+
+
+contract('Environments.DiscreteWorld.remove_cell_component',
+         params={'self': 'ref:DiscreteWorld', 'name': 'str'},
+         requires=[remove_name_ok],
+         ensures={'C11': [cellcomp_removed]},
+         raises={'ComponentNotFoundError': dict(when=cellcomp_unknown)},
+         modifies=['self.cells.cols', 'new:list[str]'],
+         native=False, props=['C11'])
+
+
+def constant_gen_post(self, pos, cells, result):
+    return same(result, self.value)
+
+
+contract('Environments.ConstantGenerator.__call__',
+         params={'self': 'ref:ConstantGenerator', 'pos': 'tuple[int,int,int]', 'cells': 'ref:DataFrame'},
+         returns='any', ensures={'C11': [constant_gen_post]}, native=False, props=['C11'])
+
+
+def lookup3_post(self, pos, cells, result):
+    return same(result, self.table[pos[0]][pos[1]][pos[2]])
+
+
+contract('Environments.LookupGenerator.__call__',
+         params={'self': 'ref:LookupGenerator', 'pos': 'tuple[int,int,int]', 'cells': 'ref:DataFrame'},
+         returns='any', ensures={'C11': [lookup3_post]}, native=False, props=['C11'])
+
+
+def lookup_line_post(self, pos, cells, result):
+    """Expected by the property on a line world with a 1-D table: the entry at the cell's x coordinate."""
+    return same(result, self.table[pos[0]])
+
+
+contract('Environments.LookupGenerator.__call__', variant='line',
+         params={'self': 'ref:LookupGenerator', 'pos': 'tuple[int,int,int]', 'cells': 'ref:DataFrame'},
+         returns='any', ensures={'C11': [lookup_line_post]}, native=False, props=['C11'],
+         expect_refuted=True, notes='expected refuted: open finding F4')
+
+
+def lookup_grid_post(self, pos, cells, result):
+    """Expected by the property on a 2-D world with a 2-D table."""
+    return same(result, self.table[pos[0]][pos[1]])
+
+
+contract('Environments.LookupGenerator.__call__', variant='grid2d',
+         params={'self': 'ref:LookupGenerator', 'pos': 'tuple[int,int,int]', 'cells': 'ref:DataFrame'},
+         returns='any', ensures={'C11': [lookup_grid_post]}, native=False, props=['C11'],
+         expect_refuted=True, notes='expected refuted: open finding F4')
